@@ -7,7 +7,10 @@
    "c" client); its content is identified by a small integer id (n itself; n + EditOff after it has been edited).
    Event records, in the order things happen:
      [k |-> "cfg", proto]                      first record: "http1", "http2", "ws", "tcp", "udp" or "dns"
-     [k |-> "arrive", n, f, to]                environment: the complete message n arrived at the proxy
+     [k |-> "arrive", n, f, to, str]           environment: the complete message n arrived at the proxy; str: an addon
+                                               asks to stream its body (http: request.stream / response.stream), so
+                                               head and body travel on before the message hook and only the end of
+                                               the message (trailers, last-chunk, END_STREAM) is left to withhold
      [k |-> "hook", n, f, d, ok]               the message's hook runs; the addon's decision d is "pass", "intercept"
                                                (flow.intercept()) or "kill" (flow.kill() if killable: ok)
      [k |-> "release", n, f]                   handle_hook returned for that hook (the waiter in wait_for_resume is
@@ -16,8 +19,9 @@
      [k |-> "kill", f, ok]                     user: flow.kill() if flow.killable (ok)
      [k |-> "edit", n, f, id]                  user: the held message n now has content id
      [k |-> "run"]                             environment: the event loop runs until nothing is runnable
-     [k |-> "write", to, hd, bd]               the proxy wrote to peer to; hd / bd = content ids found (by the peer's own
-                                               decoder) in message heads / bodies, consecutive writes to a peer merged
+     [k |-> "write", to, hd, bd, fin]          the proxy wrote to peer to; hd / bd = content ids found (by the peer's own
+                                               decoder) in message heads / bodies, fin = messages n whose clean end it
+                                               saw (last-chunk, END_STREAM); consecutive writes to a peer are merged
      [k |-> "abort", to, f]                    the proxy ended flow f towards peer to without content: connection close
                                                (f = 0: all flows), stream reset, DNS SERVFAIL
      [k |-> "raised", exc]                     the proxy reported a crash
@@ -39,6 +43,8 @@ MonInit == [bad |-> <<>>, wit |-> {},
                                  \* held by a flow that was resumed (and not killed since) before the event loop ran
             resumed |-> {},      \* n held by an intercepted flow that has been resumed; the event loop has not run yet
             fw |-> {},           \* n whose body has been written to its destination
+            fins |-> {},         \* n whose clean end has been written to its destination
+            streamed |-> {},     \* n that are streamed
             cur |-> {},          \* <<n, id>>: current content of n
             icpt |-> {},         \* flows that are intercepted now
             killed |-> {},       \* flows that have been killed
@@ -50,8 +56,11 @@ ToOf(m, n) == (CHOOSE t \in m.arrived : t[1] = n)[3]
 CurOf(m, n) == (CHOOSE t \in m.cur : t[1] = n)[2]
 Pending(m) == m.hooked \ m.released
 
-\* messages (known ones, written towards their own destination) that a write carries
-Carried(m, ev) == {n \in Nums(m) : ToOf(m, n) = ev.to /\ \E i \in DOMAIN (ev.hd \o ev.bd) : Base((ev.hd \o ev.bd)[i]) = n}
+\* messages (known ones, written towards their own destination) that a write carries something of
+Fin(ev) == Get(ev, "fin", <<>>)
+Carried(m, ev) == {n \in Nums(m) : ToOf(m, n) = ev.to /\ \E i \in DOMAIN (ev.hd \o ev.bd \o Fin(ev)) :
+                                                             Base((ev.hd \o ev.bd \o Fin(ev))[i]) = n}
+Ended(m, ev) == {n \in Nums(m) : ToOf(m, n) = ev.to /\ \E i \in DOMAIN Fin(ev) : Fin(ev)[i] = n}
 BodyCount(ev, n) == Cardinality({i \in DOMAIN ev.bd : Base(ev.bd[i]) = n})
 
 OnWrite(m, ev) ==
@@ -59,7 +68,9 @@ OnWrite(m, ev) ==
   IF \E n \in ns : n \in m.heldI \/ FlowOf(m, n) \in m.icpt THEN <<"C11.sent_while_held", m.proto>>
   ELSE IF \E n \in ns : FlowOf(m, n) \in m.killed
     THEN LET n == CHOOSE x \in ns : FlowOf(m, x) \in m.killed
-         IN <<"C11.sent_after_kill", m.proto, IF n \in m.killedHeld THEN "held_message" ELSE "later_message",
+         IN <<"C11.sent_after_kill", m.proto,
+              IF n \in m.streamed /\ n \in Ended(m, ev) THEN "streamed_end"
+              ELSE IF n \in m.killedHeld THEN "held_message" ELSE "later_message",
               IF ev.to = "s" THEN "to_server" ELSE "to_client">>
   ELSE IF \E n \in ns : BodyCount(ev, n) > 1 \/ (BodyCount(ev, n) = 1 /\ n \in m.fw)
     THEN <<"C11.forwarded_twice", m.proto>>
@@ -70,7 +81,7 @@ OnWrite(m, ev) ==
 
 \* evaluated in the state before an environment event: what the proxy could do synchronously has been done
 Check(m) ==
-  IF ~(m.mustfw \subseteq m.fw) THEN <<"C11.released_or_resumed_but_not_forwarded", m.proto>>
+  IF \E n \in m.mustfw : IF n \in m.streamed THEN n \notin m.fins ELSE n \notin m.fw THEN <<"C11.released_or_resumed_but_not_forwarded", m.proto>>
   ELSE IF Multiplexed(m.proto)
           /\ \E t \in m.arrived : /\ t[1] \notin m.hooked /\ t[2] \notin m.killed /\ t[2] \notin m.icpt
                                   /\ ~\E n \in Pending(m) : FlowOf(m, n) = t[2]
@@ -85,7 +96,9 @@ Clause(m, ev) ==
          ELSE IF \E i \in DOMAIN ev.flows : ev.flows[i].f \in m.killed /\ ~ev.flows[i].err
            THEN <<"C11.killed_without_error", m.proto>> ELSE <<>>
     [] ev.k = "hook" ->
-         IF ev.d = "intercept" /\ ev.n \in m.fw THEN <<"C11.sent_while_held", m.proto>> ELSE <<>>
+         \* what the hook can still withhold has already left: the body, or the end of a streamed message
+         IF ev.d = "intercept" /\ (IF ev.n \in m.streamed THEN ev.n \in m.fins ELSE ev.n \in m.fw)
+           THEN <<"C11.sent_while_held", m.proto>> ELSE <<>>
     [] ev.k = "write" -> OnWrite(m, ev)
     [] ev.k = "raised" -> <<"C11.proxy_crashed", m.proto>>
     [] OTHER -> <<>>
@@ -98,6 +111,7 @@ MonStep(m, ev) ==
   CASE ev.k = "cfg" -> [m1 EXCEPT !.proto = ev.proto]
     [] ev.k = "arrive" ->
          [m1 EXCEPT !.arrived = @ \cup {<<ev.n, ev.f, ev.to>>}, !.cur = @ \cup {<<ev.n, ev.n>>},
+                    !.streamed = IF Get(ev, "str", FALSE) THEN @ \cup {ev.n} ELSE @,
                     !.mustfw = @ \cup m.resumed, !.resumed = {},      \* delivering a message runs the event loop too
                     !.wit = @ \cup W(m.icpt # {} /\ ev.f \notin m.icpt, T(m, "sibling_arrives_while_other_held"))
                               \cup W(ev.f \in m.icpt, T(m, "arrives_while_own_flow_held"))
@@ -110,6 +124,8 @@ MonStep(m, ev) ==
                     !.killed = IF ev.d = "kill" /\ ev.ok THEN @ \cup {ev.f} ELSE @,
                     !.killedHeld = IF ev.d = "kill" /\ ev.ok THEN @ \cup {ev.n} ELSE @,
                     !.wit = @ \cup W(ev.d = "intercept", T(m, "intercepted"))
+                              \cup W(ev.d = "intercept" /\ ev.n \in m.streamed, T(m, "streamed_intercepted"))
+                              \cup W(ev.d = "kill" /\ ev.ok /\ ev.n \in m.streamed, T(m, "streamed_killed_in_hook"))
                               \cup W(ev.d = "kill" /\ ev.ok, T(m, "killed_in_hook"))
                               \cup W(m.icpt # {} /\ ev.f \notin m.icpt, T(m, "sibling_progress"))]
     [] ev.k = "release" ->
@@ -135,7 +151,9 @@ MonStep(m, ev) ==
     [] ev.k = "write" ->
          LET ns == Carried(m, ev) IN
          [m1 EXCEPT !.fw = @ \cup {n \in ns : BodyCount(ev, n) > 0},
-                    !.wit = @ \cup W(ns # {}, T(m, "forwarded"))
+                    !.fins = @ \cup Ended(m, ev),
+                    !.wit = @ \cup W(\E n \in Ended(m, ev) : n \in m.streamed /\ n \in m.released, T(m, "streamed_end_after_release"))
+                              \cup W(ns # {}, T(m, "forwarded"))
                               \cup W(\E n \in ns : CurOf(m, n) # n, T(m, "edited_forwarded"))]
     [] ev.k = "abort" -> [m1 EXCEPT !.wit = @ \cup {T(m, "aborted")}]
     [] ev.k = "end" ->
